@@ -16,7 +16,9 @@ import (
 
 	"github.com/google/mtail/internal/metrics"
 	"github.com/google/mtail/internal/metrics/datum"
+	"github.com/google/mtail/internal/logline"
 	"github.com/google/mtail/internal/runtime/compiler"
+	"github.com/google/mtail/internal/runtime/vm"
 )
 
 // C21 — histograms count every observation in exactly one bucket.
@@ -80,10 +82,15 @@ func c21Counts(b *datum.Buckets) []uint64 {
 
 // c21Observe runs the observations and evaluates the property after each one.
 func c21Observe(b *datum.Buckets, vs []float64) (bad []string) {
+	return c21ObserveVia(b, vs, func(k int, v float64) { b.Observe(v, time.Unix(int64(k+1), 0)) })
+}
+
+// c21ObserveVia is c21Observe with the way an observation reaches the datum left open.
+func c21ObserveVia(b *datum.Buckets, vs []float64, do func(k int, v float64)) (bad []string) {
 	sum := 0.0
 	for k, v := range vs {
 		before := c21Counts(b)
-		b.Observe(v, time.Unix(int64(k+1), 0))
+		do(k, v)
 		after := c21Counts(b)
 		sum += v
 		// the bucket the property prescribes
@@ -126,6 +133,34 @@ func c21Observe(b *datum.Buckets, vs []float64) (bad []string) {
 		bad = append(bad, fmt.Sprintf("sum %v, want %v", got, sum))
 	}
 	return bad
+}
+
+// c21TextValues reads log texts as the numbers they spell, the way the capture's type says: a
+// text capture (S) is any decimal or float spelling, an integer capture (d) digits in base ten, a
+// float capture (f) digits, a point, digits. What is not such a spelling is not an observation.
+func c21TextValues(texts []string, cap string) []float64 {
+	var out []float64
+	for _, t := range texts {
+		switch cap {
+		case "d":
+			if regexp.MustCompile(`^\d+$`).MatchString(t) {
+				if n, err := strconv.ParseInt(t, 10, 64); err == nil {
+					out = append(out, float64(n))
+				}
+			}
+		case "f":
+			if regexp.MustCompile(`^-?\d+\.\d+$`).MatchString(t) {
+				if v, err := strconv.ParseFloat(t, 64); err == nil {
+					out = append(out, v)
+				}
+			}
+		default:
+			if v, err := strconv.ParseFloat(t, 64); err == nil && !strings.ContainsAny(t, " \t") && t != "" {
+				out = append(out, v)
+			}
+		}
+	}
+	return out
 }
 
 func c21Obs(b *datum.Buckets) string {
@@ -265,11 +300,24 @@ func c21Run(r *runCtx, id string, f []string) {
 			r.ok(id)
 		}
 		r.stat("expo")
-	case "decl":
+	case "decl", "vmobs":
 		decs := strings.Split(f[1], ",")
 		bounds := unfbitsList(f[2])
 		vs := unfbitsList(f[3])
 		prog := "histogram h buckets " + strings.Join(decs, ", ") + "\n/^(\\d+)$/ {\n  h = $1\n}\n"
+		// vmobs: the observations arrive as log lines, through the compiled program and the VM; the
+		// capture group is typed as text, as an integer or as a float by its pattern
+		var texts []string
+		if f[0] == "vmobs" {
+			texts = unhxs(f[4])
+			pat := map[string]string{"S": `(\S+)`, "d": `(\d+)`, "f": `(-?\d+\.\d+)`}[f[5]]
+			prog = "histogram h buckets " + strings.Join(decs, ", ") + "\n/^" + pat + "$/ {\n  h = $1\n}\n"
+			if want := c21TextValues(texts, f[5]); fbitsList(want) != fbitsList(vs) {
+				r.obs(id, "BAD-CASE")
+				r.fail(id, "harness", "the case says the texts %q are the values %v, the harness reads %v", texts, vs, want)
+				return
+			}
+		}
 		c, _ := compiler.New()
 		obj, err := c.Compile("c21.mtail", strings.NewReader(prog))
 		sortedOK := len(bounds) >= 2
@@ -296,7 +344,30 @@ func c21Run(r *runCtx, id string, f []string) {
 		}
 		d, _ := m.GetDatum()
 		b := datum.GetBuckets(d)
-		bad := c21Observe(b, vs)
+		var bad []string
+		if f[0] == "vmobs" {
+			v := vm.New("c21.mtail", obj, false, nil, false, false)
+			ctx := context.Background()
+			// texts that are no number (or that the pattern does not match) are no observation
+			var counted []string
+			for _, t := range texts {
+				if len(c21TextValues([]string{t}, f[5])) == 1 {
+					counted = append(counted, t)
+					continue
+				}
+				before := fmt.Sprint(c21Counts(b), b.GetCount())
+				v.ProcessLogLine(ctx, logline.New(ctx, "f", t))
+				if after := fmt.Sprint(c21Counts(b), b.GetCount()); after != before {
+					bad = append(bad, fmt.Sprintf("the line %q is no observation, yet the counts went from %s to %s", t, before, after))
+				}
+			}
+			bad = append(bad, c21ObserveVia(b, vs, func(k int, _ float64) { v.ProcessLogLine(ctx, logline.New(ctx, "f", counted[k])) })...)
+			for i := range bad {
+				bad[i] = "lines " + strings.Join(counted, " ") + ": " + bad[i]
+			}
+		} else {
+			bad = c21Observe(b, vs)
+		}
 		hasNaN := false
 		for _, v := range vs {
 			if math.IsNaN(v) {
@@ -431,6 +502,25 @@ func init() {
 				}
 				g.emit("expo", strings.Join(ds, ","), fbitsList(bs), fbitsList(va), fbitsList(vb))
 				g.emit("expo", strings.Join(ds, ","), fbitsList(bs), fbitsList(vb), fbitsList(va))
+			}
+			// observations that arrive as text in a log line: zero-padded, signed, fractional and
+			// exponent spellings, non-finite words, and texts that are no number at all
+			textSets := [][]string{
+				{"0100", "010", "0064", "0250", "007", "100", "3"},
+				{"-010", "+5", "0.50", "1e2", "00", "2.5", "089", "0017.5", ".5", "5."},
+				{"NaN", "+Inf", "-Inf", "inf", "abc", "0x10", "1_0", "12abc", "7"},
+				{"0777", "0o17", "0b11", "1e-1", "-0", "00.25", "250"},
+			}
+			for _, bs := range [][]float64{{1, 8, 64, 100, 200}, {0.5, 10, 52, 168}, {-5, 0, 5}} {
+				ds := make([]string, len(bs))
+				for k, b := range bs {
+					ds[k] = dec(b)
+				}
+				for _, ts := range textSets {
+					for _, cp := range []string{"S", "d", "f"} {
+						g.emit("vmobs", strings.Join(ds, ","), fbitsList(bs), fbitsList(c21TextValues(ts, cp)), hxs(ts), cp)
+					}
+				}
 			}
 			// rejected declarations
 			g.emit("decl", "1", fbitsList([]float64{1}), ".")
